@@ -328,7 +328,7 @@ pub fn nickname_two_rounds<const N: usize, const B: usize, const M: usize, const
                     Ok(t) => Ok(t.n == 1 && t.c[0] == 'a'),
                     Err(e) => Err(e),
                 };
-                pv_cover!(s, e == Ok(true) && x.cs[0] != 'a', "COVER: another spelling of a");
+                pv_cover!(s, e == Ok(true) && x.cs[0] != 'a', "COVER(cmp): another spelling of a");
                 pv_check!(s, got == e, "PV: each application of the Nickname comparison rules = validate, space rule, lowercase, NFKC (two applications)");
             }
         }
